@@ -4,8 +4,12 @@ Props/C13.lean — property theorems for C13 (generation is deterministic and ta
 The part of C13 that is a statement about the two parsers: the go/ast parser (directory and single-file
 targets, parser_ast.go) and the go/types parser (package target, parser_loader.go), as modelled in
 Gen/Parsers.lean, produce THE SAME parsed type tree for a declared type — under the decidable hypothesis
-`DeclOK` (Proofs/C13Hyps.lean), whose essential clause is that no slice/map literal mentions more than one
-declared type. Without that clause they differ (`repo_not_correct`, finding `parser-typename-qualification`).
+`DeclOK` (Proofs/C13Hyps.lean). For the ORIGINAL go/types parser (`Pkg.dropsFirstQualOnly`, `strings.Replace(…, 1)`)
+its essential clause is that no slice/map literal mentions more than one declared type; without that clause the
+parsers differ (`repo_not_correct`, finding `parser-typename-qualification`, witness `kvPkgOrig`). For the parser as
+it is since the `fix:` commit (`strings.Replace(…, -1)`, flag off — the default of `Pkg`) `DeclOK` no longer
+carries that clause (`agreeOK_slice_current`, `agreeOK_map_current`): `current_kv_ok`, `parsers_agree_current`,
+and `current_agrees_on_kv` is now an instance of the theorem.
 -/
 import InspectorModel.Proofs.C13
 set_option linter.unusedSimpArgs false
@@ -26,11 +30,18 @@ theorem render_no_qual (p : Pkg) (ts : List TTok) (h : ∀ t ∈ ts, ∃ s, t = 
 /-- With at most one declared type mentioned, `strings.Replace(t.String(), pkgDot, "", 1)` yields the type as
 the source spells it (which is what `composeAstTypeName` builds on the go/ast side). -/
 theorem typeString_single_named (p : Pkg) (e : TExpr) (h : quals p e ≤ 1) : typeStringLocal p e = plain e :=
-  typeStringLocal_plain p e h
+  typeStringLocal_plain p e (Or.inr h)
+
+/-- The repaired parser (`strings.Replace(t.String(), pkgDot, "", -1)`) yields the source spelling whatever the
+number of declared types mentioned. -/
+theorem typeString_current (p : Pkg) (e : TExpr) (hp : p.dropsFirstQualOnly = false) :
+    typeStringLocal p e = plain e :=
+  typeStringLocal_plain p e (Or.inl hp)
 
 /-- **C13, parser agreement.** For every package `p`, every declared type `name` and every `f`: if the
-declaration satisfies `DeclOK p name f` (see `AgreeOK` for the clauses: resolvable within fuel `f`, at most one
-declared type per slice/map literal, struct literals only as definitions of declared types, no declared
+declaration satisfies `DeclOK p name f` (see `AgreeOK` for the clauses: resolvable within fuel `f`, for the
+original go/types parser `p.dropsFirstQualOnly` at most one declared type per slice/map literal, struct literals
+only as definitions of declared types, no declared
 pointer types, no `**T`, no empty identifiers), then with any fuel `≥ 2 f + 2` the go/ast parser model and the
 go/types parser model return the same tree. (The go/types model spends up to two units of fuel per level —
 `parsePkgE` → `parsePkgU` — hence the factor 2.) -/
@@ -81,35 +92,71 @@ theorem parsers_agree_driver (pk : Pkg) (name : String) (ma mp : Node) (h : Decl
   cases this
   exact Node.beq_refl ma
 
-/-! ## the tree as it is: the hypothesis is needed -/
+/-! ## the tree at the pinned commit (original go/types parser): the quals clause is needed -/
 
 /-- `type K string; type V int32; type T struct{ F map[K]V }`. -/
 def kvPkg : Pkg :=
   { name := "pk", path := "example.com/pk",
     decls := [("K", .name "string"), ("V", .name "int32"), ("T", .struct [("F", .map (.name "K") (.name "V"))])] }
 
-/-- Finding `parser-typename-qualification`: on `T` the go/ast parser records `typn = "map[K]V"` for field `F`,
+/-- The same package through the original go/types parser (first qualifier removed only). -/
+def kvPkgOrig : Pkg := { kvPkg with dropsFirstQualOnly := true }
+
+/-- Finding `parser-typename-qualification` (repaired in /repo): on `T` the go/ast parser records `typn = "map[K]V"` for field `F`,
 the go/types parser `typn = "map[K]example.com/pk.V"` (only the first qualifier is removed); the declaration
 violates `DeclOK` at every fuel that would otherwise suffice, in the `quals ≤ 1` clause only. -/
-theorem repo_not_correct : parseAstDecl kvPkg "T" 64 ≠ parsePkgDecl kvPkg "T" 64 := by
-  simp [parseAstDecl, parsePkgDecl, kvPkg, Pkg.lookup, List.find?, parseAstE, parseAstFields, parsePkgE,
+theorem repo_not_correct : parseAstDecl kvPkgOrig "T" 64 ≠ parsePkgDecl kvPkgOrig "T" 64 := by
+  simp [parseAstDecl, parsePkgDecl, kvPkgOrig, kvPkg, Pkg.lookup, List.find?, parseAstE, parseAstFields, parsePkgE,
     parsePkgU, parsePkgFields, Node.typn, Node.info, setName, setTypn, setPkg, withComposed, composeTypn,
     typeStringLocal, typeToks, renderDropFirst, Node.ptr]
 
 theorem repo_not_correct_typn :
-    (parseAstDecl kvPkg "T" 64).map (fun n => match n with | .struct _ [c] => c.typn | _ => "") = some "map[K]V" ∧
-    (parsePkgDecl kvPkg "T" 64).map (fun n => match n with | .struct _ [c] => c.typn | _ => "") =
+    (parseAstDecl kvPkgOrig "T" 64).map (fun n => match n with | .struct _ [c] => c.typn | _ => "") = some "map[K]V" ∧
+    (parsePkgDecl kvPkgOrig "T" 64).map (fun n => match n with | .struct _ [c] => c.typn | _ => "") =
       some "map[K]example.com/pk.V" := by
   constructor <;>
-  simp [parseAstDecl, parsePkgDecl, kvPkg, Pkg.lookup, List.find?, parseAstE, parseAstFields, parsePkgE,
+  simp [parseAstDecl, parsePkgDecl, kvPkgOrig, kvPkg, Pkg.lookup, List.find?, parseAstE, parseAstFields, parsePkgE,
     parsePkgU, parsePkgFields, Node.typn, Node.info, setName, setTypn, setPkg, withComposed, composeTypn,
     typeStringLocal, typeToks, renderDropFirst, Node.ptr]
 
-theorem repo_not_correct_violates : DeclOK kvPkg "T" 31 = false ∧ quals kvPkg (.map (.name "K") (.name "V")) = 2 := by
+theorem repo_not_correct_violates :
+    DeclOK kvPkgOrig "T" 31 = false ∧ quals kvPkgOrig (.map (.name "K") (.name "V")) = 2 := by
   decide
 
-/-- The other two declarations of the same package satisfy the hypothesis. -/
+/-! ## the tree as it is now: the quals clause is gone -/
+
+/-- For the parser as it is (`dropsFirstQualOnly` off) the quals clause of `AgreeOK` is vacuous: a slice literal
+is admitted exactly when its element is … -/
+theorem agreeOK_slice_current (p : Pkg) (hp : p.dropsFirstQualOnly = false) (f : Nat) (top : Bool) (x : TExpr) :
+    AgreeOK p (f + 1) top (.slice x) = AgreeOK p f false x := by
+  simp [AgreeOK, hp]
+
+/-- … and a map literal exactly when its key and value are, however many declared types they mention. -/
+theorem agreeOK_map_current (p : Pkg) (hp : p.dropsFirstQualOnly = false) (f : Nat) (top : Bool) (k v : TExpr) :
+    AgreeOK p (f + 1) top (.map k v) = (AgreeOK p f false k && AgreeOK p f false v) := by
+  simp [AgreeOK, hp]
+
+/-- The declaration on which the original parser failed satisfies the hypothesis for the parser as it is
+(`kvPkg` has the default flag: off), although its map literal mentions two declared types. -/
+theorem current_kv_ok : DeclOK kvPkg "T" 31 = true := by decide
+
+/-- … so the parser as it is agrees on `T`: an instance of `parsers_agree`. -/
+theorem current_agrees_on_kv : parseAstDecl kvPkg "T" 64 = parsePkgDecl kvPkg "T" 64 :=
+  parsers_agree kvPkg "T" 31 64 current_kv_ok (by decide)
+
+/-- **C13, parser agreement, for the tree as it is.** `parsers_agree` at a package read by the repaired go/types
+parser (`p.dropsFirstQualOnly = false`, the default of `Pkg`): `DeclOK` then demands nothing about the number of
+declared types in a slice/map literal (`agreeOK_slice_current`, `agreeOK_map_current`); what remains is
+resolvability within the fuel, struct literals only as definitions of declared types, no declared pointer types,
+no `**T`, no empty identifiers — each still needed (`section ClausesNeeded`, packages with the default flag). -/
+theorem parsers_agree_current (p : Pkg) (_hp : p.dropsFirstQualOnly = false) (name : String) (f fuel : Nat)
+    (h : DeclOK p name f = true) (hfuel : 2 * f + 2 ≤ fuel) :
+    parseAstDecl p name fuel = parsePkgDecl p name fuel :=
+  parsers_agree p name f fuel h hfuel
+
+/-- The other two declarations of the same package satisfy the hypothesis, for either parser. -/
 theorem kv_others_ok : DeclOK kvPkg "K" 31 = true ∧ DeclOK kvPkg "V" 31 = true := by decide
+theorem kvOrig_others_ok : DeclOK kvPkgOrig "K" 31 = true ∧ DeclOK kvPkgOrig "V" 31 = true := by decide
 
 /-! ### the other clauses of `AgreeOK` are needed too (the model parsers differ when one is dropped) -/
 
